@@ -132,7 +132,7 @@ RERUN_PROFILE = P(forbid=('coro', 'inspect'), windows=0.7, timeouts=0.6,
                   max_jobs=8)
 
 
-RERUN_PROPS = ('C02', 'C04', 'C07', 'C08', 'C11', 'C12')
+RERUN_PROPS = ('C02', 'C04', 'C07', 'C08', 'C11', 'C12', 'C14')
 RERUN_CORO_PROFILE = P(forbid=('inspect',), coro=1.0, windows=0.5,
                        timeouts=0.3, nesting=0.5, forever=0.3, max_depth=2,
                        max_jobs=8)
@@ -194,6 +194,8 @@ def gen_rerun_case(rng, coro=False):
                 attrs2[node['id']]["new"], fresh = fresh[:k], fresh[k:]
     knobs = gen.gen_knobs(rng, feat)
     knobs['noise'] = 0
+    if rng.random() < 0.35:
+        knobs['first_run_other_loop'] = True
     return {"spec": top, "knobs": knobs, "choices": None,
             "aux": {"rerun": True}, "attrs2": attrs2}
 
@@ -240,6 +242,10 @@ def evaluate_rerun(prop, case):
             prop, 'second-run-does-not-terminate', 'rerun',
             "second run of the same scheduler: {} ({})".format(
                 run.outcome, run.value)))
+    elif prop == 'C14':
+        viols = oracles.c14_new_jobs(hist, [
+            n['id'] for attrs in case['attrs2'].values()
+            for n in attrs.get('new') or ()])
     else:
         fn = oracles.ORACLES[prop]
         viols = fn(hist) if fn in (oracles.c02, oracles.c04) \
